@@ -11,8 +11,23 @@ oracle: the property's sentence checked directly on the decoded output: floor(L/
 correspondence: the Lean model `getBatches` driven with the permutation observed from the
   implementation ("given this permutation, the same batches"), and `reshapePmap` called directly
   with device lists of length 1, 2, 3, exact comparison by key; rejections must agree.
+
+Use of the batches (`ml.map_loss_in_batches`, `ml.map_plus_loss_in_batches`, hence `evaluate` in both
+branches, `loss_reducer`, `multi_image_reducer`): a model that maps every sample independently
+(`2 * block + the sample's own first entry`), `map_and_loss` = `jax.vmap(model)` + `ml.smse_loss`
+(2-tuple and 3-tuple forms), inputs whose sample `i` of type `t` is the constant `(i + 1) + 16 * t`,
+integer targets `3 * input + small offsets`; all per-sample losses are small multiples of 1/4.
+oracle: numpy table `loss[i][j]` (prediction from input i against target j, exact rationals); the
+  value must be the mean of `loss[i][i]` over exactly the used samples (input i with target i), the
+  mapped output `f` of the used samples in batch order for every type (identity order without a key,
+  no repetition with one), and the mean over all samples whatever the key when B divides L.
+correspondence: the Lean model `mapLossInBatches` / `mapPlusLossInBatches` (driver ops `c17.map_loss`,
+  `c17.map_plus`) with the same table and the observed permutation: value, used indices and per-type
+  order of the mapped samples; rejections (L < B) must agree.
 """
 from __future__ import annotations
+
+from fractions import Fraction
 
 import numpy as np
 
@@ -242,6 +257,223 @@ def run_reshape(ctx: Ctx, geom, jnp, jax, L, ts, nd):
                       dict(case, impl=impl if isinstance(impl, str) else "accepted", model=mod if isinstance(mod, str) else "accepted"))
 
 
+# ---------------------------------------------------------------- evaluation over the batches
+LOSS_TYPES = [(0, 0), (1, 0)]  # input / output types of the loss family (one channel each)
+EXTRA_TYPE = (0, 1)  # a target type the model does not produce (ignored by smse_loss)
+_LOSS = {}
+
+
+def loss_tools():
+    """the per-sample model and the two shapes of map_and_loss (built once)"""
+    if not _LOSS:
+        import equinox as eqx
+        import jax
+
+        import ginjax.ml as ml
+
+        class Affine(eqx.Module):
+            """maps every sample independently: 2 * block + the sample's own first entry"""
+
+            def __call__(self, x, aux_data=None):
+                out = x.empty()
+                for (k, par), blk in x.items():
+                    out.append(k, par, 2 * blk + blk.reshape(-1)[0])
+                return out, aux_data
+
+        def mal(model, x, y, aux_data):
+            pred, aux_data = jax.vmap(model, in_axes=(0, None), out_axes=(0, None))(x, aux_data)
+            return ml.smse_loss(pred, y), aux_data
+
+        def mal_map(model, x, y, aux_data):
+            pred, aux_data = jax.vmap(model, in_axes=(0, None), out_axes=(0, None))(x, aux_data)
+            return ml.smse_loss(pred, y), aux_data, pred
+
+        _LOSS.update(model=Affine(), mal=mal, mal_map=mal_map)
+    return _LOSS
+
+
+def loss_value(i, t):
+    return (i + 1) + 16 * t
+
+
+def loss_shape(L, t):
+    return (L, 1) + (N,) * D + (D,) * LOSS_TYPES[t][0]
+
+
+def loss_data(rng, L, ntypes, yextra):
+    """integer numpy inputs / targets (dict insertion order = list order) and the oracle table"""
+    xs, ys = [], []
+    for t in range(ntypes):
+        shp = loss_shape(L, t)
+        ids = np.asarray([loss_value(i, t) for i in range(L)], dtype=np.int64)
+        x = np.broadcast_to(ids.reshape((L,) + (1,) * (len(shp) - 1)), shp).copy()
+        xs.append((LOSS_TYPES[t], x))
+        ys.append((LOSS_TYPES[t], 3 * x + rng.integers(0, 3, size=shp)))
+    if yextra:
+        junk = (EXTRA_TYPE, rng.integers(-5, 6, size=(L, 1) + (N,) * D))
+        ys.insert(int(rng.integers(0, len(ys) + 1)), junk)
+    ydict = dict(ys)
+    table = [[Fraction(0)] * L for _ in range(L)]
+    for kp, x in xs:
+        pred = 2 * x + x.reshape(L, -1)[:, 0].reshape((L,) + (1,) * (x.ndim - 1))  # the model, in numpy
+        for i in range(L):
+            for j in range(L):
+                table[i][j] += Fraction(int(np.sum((pred[i] - ydict[kp][j]) ** 2)), N**D)
+    return xs, ys, table
+
+
+def decode_mapped(out, ntypes, want_len):
+    """mapped MultiImage -> {key: [sample index or None]} (or a string describing a malformed block)"""
+    res = {}
+    by_key = {LOSS_TYPES[t]: t for t in range(ntypes)}
+    for kp, blk in out.items():
+        t = by_key.get(tuple(kp))
+        if t is None:
+            return f"unexpected key {tuple(kp)}"
+        a = np.asarray(blk)
+        if tuple(a.shape) != loss_shape(want_len, t):
+            return f"type {tuple(kp)} has shape {tuple(a.shape)}, expected {loss_shape(want_len, t)}"
+        flat = a.reshape(want_len, -1)
+        ids = []
+        for r in range(want_len):
+            v = float(flat[r, 0])
+            const = bool((flat[r] == flat[r, 0]).all())
+            i = (v / 3) - 16 * t - 1
+            ids.append(int(i) if const and i == int(i) else None)
+        res[key_str_kp(kp)] = ids
+    if len(res) != ntypes:
+        return f"mapped output has {len(res)} types, the model produces {ntypes}"
+    return res
+
+
+def key_str_kp(kp):
+    return f"{kp[0]},{kp[1]}"
+
+
+def frac_close(got, want: Fraction, exact: bool):
+    w = float(want)
+    if exact:
+        return got == w
+    return abs(got - w) <= 1e-6 * max(1.0, abs(w))
+
+
+def run_loss_case(ctx: Ctx, ml, geom, jax, jnp, random, L, B, seed, ntypes, yextra):
+    tools = loss_tools()
+    xs, ys, table = loss_data(ctx.rng, L, ntypes, yextra)
+    X = geom.MultiImage({kp: jnp.asarray(a.astype(np.float32)) for kp, a in xs}, D, True)
+    Y = geom.MultiImage({kp: jnp.asarray(a.astype(np.float32)) for kp, a in ys}, D, True)
+    key = None if seed is None else random.PRNGKey(seed)
+    devices = jax.devices()[:1]
+    n = L // B
+    case = {
+        "fn": "ml.map_loss_in_batches / ml.map_plus_loss_in_batches", "L": L, "batch_size": B,
+        "key": None if seed is None else f"PRNGKey({seed})", "devices": "jax.devices()[:1]",
+        "model": "per sample: 2 * block + block.reshape(-1)[0]", "map_and_loss": "vmap(model) + ml.smse_loss",
+        "x": {key_str_kp(kp): "sample i = constant (i + 1) + 16 * type" for kp, _ in xs},
+        "y": {key_str_kp(kp): a.astype(int).tolist() for kp, a in ys},
+        "per_sample_loss[i][i]": [str(table[i][i]) for i in range(L)],
+    }
+
+    def call(fn, mal):
+        try:
+            return fn(mal, tools["model"], X, Y, B, key, devices)
+        except Exception as e:  # noqa: BLE001
+            return "rejected:" + type(e).__name__
+
+    r_plus = call(ml.map_plus_loss_in_batches, tools["mal_map"])
+    r_loss = call(ml.map_loss_in_batches, tools["mal"])
+    ctx.case(("maploss", L, B, seed, ntypes, yextra), n >= 2,
+             sample=dict(case, n_batches=n) if (L, B, ntypes) == (7, 3, 2) else None)
+    ctx.hist("maploss_key", "none" if seed is None else "key")
+    ctx.hist("maploss_batches", n)
+    ctx.hist("maploss_divisible", L % B == 0)
+    xkeys = [key_str_kp(kp) for kp, _ in xs]
+    ykeys = [key_str_kp(kp) for kp, _ in ys]
+    tab_json = [[[t.numerator, t.denominator] for t in row] for row in table]
+
+    def model_call(op, perm):
+        try:
+            return ctx.driver.call(op, L=L, B=B, nd=1, perm=perm, xkeys=xkeys, ykeys=ykeys, loss=tab_json)
+        except DriverReject:
+            return "rejected"
+
+    if n == 0:
+        # no batch at all: nothing the property pins; the model says both raise
+        perm = None if seed is None else [int(v) for v in np.asarray(random.permutation(key, L))]
+        for name, r, op in (("map_loss_in_batches", r_loss, "c17.map_loss"),
+                            ("map_plus_loss_in_batches", r_plus, "c17.map_plus")):
+            mod = model_call(op, perm)
+            if isinstance(r, str) != isinstance(mod, str):
+                ctx.violation("correspondence", f"L < batch_size: model and {name} do not both reject",
+                              dict(case, impl=r if isinstance(r, str) else "accepted",
+                                   model=mod if isinstance(mod, str) else "accepted"))
+        return
+    # ---------------- oracle: the mapped output is f of the used samples, in batch order, per type
+    for name, r in (("map_loss_in_batches", r_loss), ("map_plus_loss_in_batches", r_plus)):
+        if isinstance(r, str):
+            ctx.violation("oracle", f"{name} raises on a valid configuration", dict(case, impl=r))
+            return
+    try:
+        v_plus = float(np.asarray(r_plus[0]).reshape(()))
+        v_loss = float(np.asarray(r_loss).reshape(()))
+        dec = decode_mapped(r_plus[1], ntypes, n * B)
+    except Exception as e:  # noqa: BLE001
+        ctx.violation("oracle", "the result is not (scalar loss[, mapped MultiImage])", dict(case, error=repr(e)))
+        return
+    if isinstance(dec, str):
+        ctx.violation("oracle", "mapped output of map_plus_loss_in_batches is not the model applied to "
+                      "floor(L/B)*B whole samples per type: " + dec, case)
+        return
+    used = dec[xkeys[0]]
+    for k in xkeys:
+        if any(v is None for v in dec[k]) or dec[k] != used:
+            ctx.violation("oracle", "mapped output: a type is not f of whole samples, or the types show "
+                          "different sample orders", dict(case, mapped=dec))
+            return
+    if len(set(used)) != len(used) or any(not (0 <= v < L) for v in used):
+        ctx.violation("oracle", "mapped output: a sample occurs twice in one pass or is out of range",
+                      dict(case, mapped_order=used))
+        return
+    if seed is None and used != list(range(n * B)):
+        ctx.violation("oracle", "without a key the mapped output is not f of the first floor(L/B)*B samples in order",
+                      dict(case, mapped_order=used))
+        return
+    # ---------------- oracle: the value is the mean of the paired per-sample losses over the used samples
+    exact = (B & (B - 1)) == 0 and (n & (n - 1)) == 0
+    want = sum(table[i][i] for i in used) / len(used)
+    for name, v in (("map_loss_in_batches", v_loss), ("map_plus_loss_in_batches", v_plus)):
+        if not frac_close(v, want, exact):
+            ctx.violation("oracle", f"{name} is not the mean over the used samples of loss(f(x_i), y_i)",
+                          dict(case, got=v, expected=str(want), used=used, exact_comparison=exact))
+            return
+    if L % B == 0:
+        full = sum(table[i][i] for i in range(L)) / L
+        for name, v in (("map_loss_in_batches", v_loss), ("map_plus_loss_in_batches", v_plus)):
+            if not frac_close(v, full, exact):
+                ctx.violation("oracle", f"B divides L: {name} is not the mean over all samples (depends on the key)",
+                              dict(case, got=v, expected=str(full), used=used))
+                return
+    # ---------------- correspondence: the Lean model on the observed permutation
+    perm = None if seed is None else used + [v for v in range(L) if v not in set(used)]
+    m_loss = model_call("c17.map_loss", perm)
+    m_plus = model_call("c17.map_plus", perm)
+    if isinstance(m_loss, str) or isinstance(m_plus, str):
+        ctx.violation("correspondence", "the model rejects a configuration the implementation accepts",
+                      dict(case, permutation=perm, model_map_loss=m_loss if isinstance(m_loss, str) else "accepted",
+                           model_map_plus=m_plus if isinstance(m_plus, str) else "accepted"))
+        return
+    ml_v = Fraction(m_loss["loss"][0], m_loss["loss"][1])
+    mp_v = Fraction(m_plus["loss"][0], m_plus["loss"][1])
+    if not frac_close(v_loss, ml_v, exact) or m_loss["used"] != used:
+        ctx.violation("correspondence", "map_loss_in_batches differs from the Lean model mapLossInBatches",
+                      dict(case, permutation=perm, impl=v_loss, model=str(ml_v), impl_used=used, model_used=m_loss["used"]))
+        return
+    mod_out = {k: [v - 100 * xkeys.index(k) for v in ids] for k, ids in m_plus["out"]}
+    if not frac_close(v_plus, mp_v, exact) or mod_out != dec:
+        ctx.violation("correspondence", "map_plus_loss_in_batches differs from the Lean model mapPlusLossInBatches",
+                      dict(case, permutation=perm, impl=v_plus, model=str(mp_v), impl_mapped=dec, model_mapped=mod_out))
+
+
 def run(ctx: Ctx):
     import jax
     import jax.numpy as jnp
@@ -253,6 +485,7 @@ def run(ctx: Ctx):
     quick = ctx.tier == "quick"
     Lmax = 12 if quick else 16
     nkeys = 4 if quick else 30
+    LmaxLoss, BmaxLoss, nkeysLoss = (9, 4, 1) if quick else (12, 6, 3)
     ctx.rule = (
         f"all (L <= {Lmax}, 1 <= B <= L): once without a key and with {nkeys} random keys, 1..3 co-batched "
         "multi-images with type sets drawn from 6 (scalars, vectors, pseudoscalars, 2-tensors; 1-3 types), the "
@@ -260,12 +493,19 @@ def run(ctx: Ctx):
         "lists of length 2 and 3; a single MultiImage passed instead of a sequence now and then; reshape_pmap "
         "directly for L <= 12 with 1, 2, 3 devices. A get_batches case is non-trivial when it has a key, >= 2 "
         "batches and >= 2 co-batched blocks (multi-images or types); distinct = distinct (L, B, key, type sets, "
-        "devices)."
+        f"devices). Use of the batches: all (L <= {LmaxLoss}, B <= {BmaxLoss}) incl. L < B, once without a key and "
+        f"with {nkeysLoss} random key(s), 1-2 input/output tensor types, now and then a target type the model does "
+        "not produce, one real device; non-trivial when there are >= 2 batches."
     )
     ctx.assumptions = [
         "all co-batched multi-images and all their types have the same leading extent L",
         "B >= 1; L small enough that float division L / B is exact",
         "random.permutation returns a permutation of range(L) (checked on every call by the oracle)",
+        "map_loss_in_batches / map_plus_loss_in_batches: one device (device invariance is a theorem only); "
+        "map_and_loss = vmap(model) + smse_loss, returning the vmapped prediction in the 3-tuple form; values are "
+        "compared exactly when batch size and batch count are powers of two (all float32 operations exact), "
+        "otherwise with relative tolerance 1e-6 (float32 division by 3, 5, ...); two calls with the same key "
+        "are assumed to draw the same permutation",
     ]
     ctx.trusted_extra = ["jax.random.permutation is modelled as an arbitrary permutation handed to the model"]
     rng = ctx.rng
@@ -286,5 +526,12 @@ def run(ctx: Ctx):
     for L in range(1, 13):
         for nd in (None, 1, 2, 3):
             run_reshape(ctx, geom, jnp, jax, L, TYPESETS[int(rng.integers(len(TYPESETS)))], nd)
+    for L in range(1, LmaxLoss + 1):
+        for B in range(1, BmaxLoss + 1):
+            seeds = [None] + [int(v) for v in rng.integers(0, 2**31 - 1, size=nkeysLoss)]
+            for seed in seeds:
+                ntypes = 1 + int(rng.integers(2))
+                yextra = bool(rng.integers(4) == 0)
+                run_loss_case(ctx, ml, geom, jax, jnp, random, L, B, seed, ntypes, yextra)
     ctx.exhaustive = True
     ctx.notes["exhaustive_scope"] = f"all (L<={Lmax}, B<=L) without key; sampled keys, type sets, device counts"
